@@ -66,6 +66,9 @@ def generate(rng, tier):
             ops.append({"op": "step", "n": rng.choice([1, 1, 1, 2, 3])})
         else:
             ops.append({"op": "lookup", "k": rng.randrange(n)})
+    if rng.random() < 0.15:      # ids that are falsy or carry format / template syntax (messages quote the id)
+        for name in rng.sample(["", "{x}", "%s", "{}", "a b", "{0}"], rng.randint(1, 2)):
+            pool[rng.randrange(n)]["id"] = name
     return dict({"pool": pool, "ops": ops}, **gen_flavour(rng))
 
 
@@ -146,6 +149,8 @@ def execute(sc, ctx):
                 ctx.event("remove_rejected", sid)
                 shape.append(["rmx", len(ref.q)])
         elif kind == "remove_ghost":
+            if ref.has(op["id"]):
+                continue
             ctx.fault("reject.unknown_system")
             ctx.probe("unknown_rejected")
             ctx.expect_raises("remove-unknown", SystemNotFoundError, sm.remove_system, op["id"])
@@ -172,7 +177,7 @@ def execute(sc, ctx):
                     tie_step = True
                 if any(prios.count(p) >= 3 for p in set(prios)):
                     ctx.probe("tie_of_3")
-                kinds = {s["id"][0] for s in ref.q if s["prio"] == -1}
+                kinds = {s.get("kind", "system")[0] for s in ref.q if s["prio"] == -1}
                 if "c" in kinds and ("s" in kinds or any(s["prio"] < -1 for s in ref.q)):
                     ctx.probe("negative_next_to_collector")
             if removed_since_step:
